@@ -105,3 +105,26 @@ extern "C" void h_string_rollover(void) {
    }
    vp_done();
 }
+// products and sums share their interned element sequences: a product and a sum are built from warehouses with symbolically picked
+// elements (lengths 0..3, any address order, repetitions allowed), then further products / sums are requested (same or other content,
+// through a warehouse or a caller-owned sequence); the elements of every earlier node are re-read one by one after every later request
+extern "C" void h_sequence_sharing(void) {
+   zoo::World* w = new zoo::World; auto& lx = w->lx;
+   const ipr::Type* pool[3] = { w->T[0], w->T[1], w->T[2] };
+   struct Rec { const ipr::Sequence<ipr::Type>* seq; unsigned n; const ipr::Type* el[3]; } rec[4]; int nrec = 0;
+   auto recheck = [&](int id) { for (int r = 0; r < nrec; ++r) { vp_assert(rec[r].seq->size() == rec[r].n, id); for (unsigned k = 0; k < rec[r].n && k < rec[r].seq->size(); ++k) vp_assert(&at(*rec[r].seq, k) == rec[r].el[k], id + 1); } };
+   for (int step = 0; step < 3; ++step) {
+      unsigned n = step == 0 ? 2 + vp_pick(2) : rec[0].n; bool same_as_first = step == 2 || (step == 1 && vp_flag());       // the last request has exactly the content of the first
+      const ipr::Type* el[3];
+      for (unsigned k = 0; k < n; ++k) el[k] = same_as_first ? rec[0].el[k] : pool[vp_pick(3)];
+      unsigned how = step == 0 ? 0 : vp_pick(4);        // product / sum, through a warehouse / a caller-owned sequence
+      const ipr::Sequence<ipr::Type>* seq;
+      if (how < 2) { impl::Warehouse<ipr::Type>* wh = new impl::Warehouse<ipr::Type>; for (unsigned k = 0; k < n; ++k) wh->push_back(*el[k]);
+                     seq = how == 0 ? &lx.get_product(*wh).elements() : &lx.get_sum(*wh).elements(); delete wh; }
+      else { auto* rs = new impl::ref_sequence<ipr::Type>; for (unsigned k = 0; k < n; ++k) rs->push_back(el[k]);
+             seq = how == 2 ? &lx.get_product(*rs).elements() : &lx.get_sum(*rs).elements(); }
+      rec[nrec].seq = seq; rec[nrec].n = n; for (unsigned k = 0; k < n; ++k) rec[nrec].el[k] = el[k]; ++nrec;
+      recheck(30);
+   }
+   vp_done();
+}
